@@ -27,15 +27,18 @@ Inductive key :=
 | KLfr                   (* grandpa latest finalised round *)
 | KSetID                 (* grandpa current set id *)
 | KAuth (s : N)          (* authorities of set s *)
-| KChange (s : N).       (* block number at which set s became current *)
+| KChange (s : N)        (* block number at which set s became current *)
+| KJst (b : N)           (* justification of block b (lib/grandpa writes it before finalising) *)
+| KPv (r s : N)          (* prevotes of round r, set s *)
+| KPc (r s : N).         (* precommits of round r, set s *)
 
 Inductive value := VUnit | VBlk (b : N) | VPair (r s : N) | VNum (n : N).
 
 Definition key_eqb (a b : key) : bool :=
   match a, b with
   | KSt x, KSt y | KHdr x, KHdr y | KBlb x, KBlb y | KArr x, KArr y | KHsh x, KHsh y
-  | KAuth x, KAuth y | KChange x, KChange y => x =? y
-  | KFh r s, KFh r' s' => (r =? r') && (s =? s')
+  | KAuth x, KAuth y | KChange x, KChange y | KJst x, KJst y => x =? y
+  | KFh r s, KFh r' s' | KPv r s, KPv r' s' | KPc r s, KPc r' s' => (r =? r') && (s =? s')
   | KFsn, KFsn | KHrs, KHrs | KLfr, KLfr | KSetID, KSetID => true
   | _, _ => false
   end.
@@ -159,6 +162,11 @@ Section Ops.
     [WPut (KHdr x) VUnit] ++ (if numof bs x =? 1 then [WPut KFsn VUnit] else []) ++
     [WPut (KBlb x) VUnit; WPut (KArr x) VUnit].
 
+  (* what lib/grandpa writes (through BlockState.SetJustification, GrandpaState.SetPrevotes and
+     SetPrecommits) before it calls SetFinalisedHash; the restart path reads none of them *)
+  Definition vote_units (b r g : N) : list wunit :=
+    [WPut (KJst b) VUnit; WPut (KPv r g) VUnit; WPut (KPc r g) VUnit].
+
   (* handleFinalisedBlock returns before creating the batch when the block is the finalised
      head already (a later round finalising the same block): no number->hash batch then *)
   Definition hsh_batch (bs : blocks) (ch : list N) : list wunit :=
@@ -185,7 +193,7 @@ Section Ops.
       match chain bs (s_fin st) b with
       | None => ([], st)
       | Some ch =>
-        let ws := concat (map (fin_block_units bs) ch) ++ hsh_batch bs ch ++
+        let ws := vote_units b r (s_set st) ++ concat (map (fin_block_units bs) ch) ++ hsh_batch bs ch ++
                   [WPut (KFh r (s_set st)) (VBlk b); WPut KHrs (VPair r (s_set st));
                    WPut KLfr (VNum r)] in
         if sched_applies bs (s_sched st) b then
